@@ -264,6 +264,40 @@ theorem code_occupancy_bounded (e : Env) (B : Nat)
   · exact hprobe
   · exact hpub
 
+/-- a message is `answered` when the environment does answer the three calls the worker makes itself -/
+def answered (o : Option Nat) : Prop :=
+  ∃ e : Env, (∃ d, e .dns = some d) ∧ (∃ d, e .probe = some d) ∧ (∃ d, e .publish = some d) ∧
+    o = occupancy { sync := codeSync } e
+
+theorem answered_not_parked (o : Option Nat) (h : answered o) : (Msg.good o).parked = false := by
+  obtain ⟨e, ⟨d1, h1⟩, ⟨d2, h2⟩, ⟨d3, h3⟩, rfl⟩ := h
+  obtain ⟨n, _, hn⟩ := code_occupancy_bounded e (d1 + d2 + d3)
+    ⟨d1, by omega, h1⟩ ⟨d2, by omega, h2⟩ ⟨d3, by omega, h3⟩
+  rw [hn]; rfl
+
+/-- **Wind-down of the code.**  After a stop request, if for every registration that is with a worker or
+in the buffer the covert-address resolution, the liveness probe and the detector publication return —
+whatever the peer station and the dialled-back client do, answer late or never — then a bounded schedule
+ends with `HandleRegUpdates` returned. -/
+theorem code_winds_down (s : TSt) (hc : s.cancelled = true)
+    (hw : ∀ w ∈ s.workers, ∀ o, w = TW.busy (.good o) → answered o)
+    (hq : ∀ m ∈ s.queue, ∀ o, m = Msg.good o → answered o) :
+    ∃ acts, acts.length ≤ tmu s ∧ (trun s acts).dist = .done := by
+  apply winds_down_within_bound
+  refine ⟨hc, ?_, ?_⟩
+  · intro w hwm
+    cases w with
+    | idle => rfl
+    | exited => rfl
+    | busy m =>
+      cases m with
+      | bad => rfl
+      | good o => exact answered_not_parked o (hw _ hwm o rfl)
+  · intro m hm
+    cases m with
+    | bad => rfl
+    | good o => exact answered_not_parked o (hq _ hm o rfl)
+
 /-- the bound of the liveness probe rests on its shape: every dial is a `DialTimeout(…, timeout)`, the
 wait is one `time.Sleep(timeout)` and the `select` behind it has a `default` branch -/
 theorem probe_is_bounded_by_construction :
